@@ -7,8 +7,9 @@ import ftutil as U
 
 ID = "C04"
 THEOREMS = ["C04_order", "C04_exactly", "C04_and", "C04_and_is_filter", "C04_or", "C04_xor", "C04_sub",
-            "C04_stream", "C04_absent", "C04_leader_follower", "C04_model_meets_spec_lf",
-            "C04_model_meets_spec_partial", "C04_sub_uncompressed_refuted"]
+            "C04_stream", "C04_absent", "C04_prefix_a_shorter", "C04_prefix_b_shorter", "C04_prefix",
+            "C04_nary_and", "C04_nary_or", "C04_leader_follower", "C04_model_meets_spec_lf",
+            "C04_model_meets_spec", "C04_sub_uncompressed_refuted"]
 COQ_IMPORTS = "From FT Require Import Model.Base Model.Obs Model.C04Coiter Model.C04Check."
 CHECK_VO = ["Model/C04Check.v"]
 CHECKER = "c04_checker"
@@ -30,8 +31,6 @@ TRUSTED = ["Coq 8.16.1 kernel (coqc; coqchk in the thorough tier); vm_compute us
            "harness: harness/check.py, harness/props/c04.py (payload identity via `is`), CPython 3.12"]
 ASSUMPTIONS = ["operands are ordered, unique fibers whose stored coordinates have one tuple arity (wf_case); "
                "the mixed-arity path is explored for a & b only (|, ^, - compare int with tuple: TypeError)",
-               "on the mixed-arity path an operand that has stored elements delivers at least one (otherwise "
-               "project() raises StopIteration: suspect S20, owned by C07)",
                "followers of leader-follower intersection start with saved position 0 (fresh fibers)",
                "bisect_left on an ordered coordinate list = index of the first coordinate >= c"]
 EXPLANATION = ("theorems: each two-finger merge = its set operation with payload origins and masks (all lists), "
@@ -82,10 +81,7 @@ def gen_case(rng, k=None, mixed=False, owned=False):
         ar = rng.sample([1, 2, 3], 2)
         span = 3
         ops = [gen_operand(rng, ar[i], depth, d, span, "C") for i in range(2)]
-        # S20 region excluded: a fiber with stored elements delivers at least one
-        for o in ops:
-            if o["es"] and not delivers(o):
-                o["es"] = [] if rng.random() < 0.5 else [[o["es"][0][0], nonempty_payload(depth, d)]]
+        # (operands with stored elements that deliver nothing — the former S20 region — included)
         return {"ops": ops, "mixed": True}
     k = k or rng.choice([2, 2, 2, 3, 4])
     arity = 1 if owned else rng.choice([1, 1, 1, 2])
@@ -95,18 +91,7 @@ def gen_case(rng, k=None, mixed=False, owned=False):
         styles = ["owned", "owned", "owned", "ownedU"]
     ops = [gen_operand(rng, arity, depth, d if rng.random() < 0.8 else rng.choice([0, 3]), span, rng.choice(styles))
            for _ in range(k)]
-    if arity > 1:   # S20 region excluded (see wf_case / s20_free)
-        for o in ops:
-            if o["es"] and not delivers(o):
-                o["es"] = [] if rng.random() < 0.5 else [[o["es"][0][0], nonempty_payload(depth, o["d"])]]
     return {"ops": ops, "mixed": False}
-
-
-def nonempty_payload(depth, d):
-    t = d + 5
-    for _ in range(depth - 1):
-        t = [[0, t]]
-    return t
 
 
 def delivers(o):
@@ -139,6 +124,8 @@ def boundary_cases():
     T3 = op([[[1, 2, 0], 5], [[1, 2, 7], 6], [[1, 4, 1], 2], [[2, 0, 0], 7]])
     I = op([[[1], 10], [[3], 30]])
     Z = op([[[1], 0], [[2], 0]])
+    Z2 = op([[[1, 2], 0], [[3, 0], 0]])
+    Z3 = op([[[1, 2, 0], 0]])
     sub2 = lambda *cs: [[c, 1] for c in cs]
     cases = [
         {"ops": [E, T2], "mixed": True}, {"ops": [T2, E], "mixed": True},       # S12 witnesses
@@ -146,6 +133,10 @@ def boundary_cases():
         {"ops": [I, T3], "mixed": True}, {"ops": [T2, T3], "mixed": True}, {"ops": [T3, T2], "mixed": True},
         {"ops": [E, E], "mixed": False}, {"ops": [E, I], "mixed": False}, {"ops": [I, E], "mixed": False},
         {"ops": [Z, I], "mixed": False}, {"ops": [Z, Z, I], "mixed": False}, {"ops": [E, E, E, E], "mixed": False},
+        # former S20 region: stored tuple coordinates, every payload an explicit default
+        {"ops": [Z2, T2], "mixed": False}, {"ops": [T2, Z2], "mixed": False}, {"ops": [Z2, Z2, T2], "mixed": False},
+        {"ops": [Z2, T3], "mixed": True}, {"ops": [T3, Z2], "mixed": True}, {"ops": [Z, T2], "mixed": True},
+        {"ops": [Z2, I], "mixed": True}, {"ops": [Z3, T2], "mixed": True}, {"ops": [Z2, Z3], "mixed": True},
         # S16 witnesses: owned interior operands, coordinates on one side only
         {"ops": [op([[[0], sub2(0)], [[2], sub2(1)]], owned=True, depth=2),
                  op([[[1], sub2(1)], [[2], sub2(0)]], owned=True, depth=2)], "mixed": False},
@@ -372,23 +363,18 @@ def shrinks(case):
         for j in range(len(o["es"])):
             c = copy.deepcopy(case)
             del c["ops"][i]["es"][j]
-            if case["mixed"] and c["ops"][i]["es"] and not delivers(c["ops"][i]):
-                continue
             yield c
         for j, (co, p) in enumerate(o["es"]):
             if not isinstance(p, int) and p:
                 for t in range(len(p)):
                     c = copy.deepcopy(case)
                     del c["ops"][i]["es"][j][1][t]
-                    if case["mixed"] and not delivers(c["ops"][i]):
-                        continue
                     yield c
         if o["U"]:
             c = copy.deepcopy(case)
             c["ops"][i]["U"] = False
             c["ops"][i]["lo"] = c["ops"][i]["hi"] = 0
-            if not (case["mixed"] and c["ops"][i]["es"] and not delivers(c["ops"][i])):
-                yield c
+            yield c
         if o["owned"]:
             c = copy.deepcopy(case)
             c["ops"][i]["owned"] = False
